@@ -36,7 +36,7 @@ TOKEN_TYPES = ["Doctype", "Characters", "SpaceCharacters", "StartTag", "EndTag",
                "Entity", "SerializeError", FRESH]
 
 
-def decision_table(ctx, func, with_previous):
+def decision_table(ctx, func, with_previous, extra_next=()):
     """-> {(tagname, next_type, next_name, prev): value} for all abstract inputs."""
     ce = ctx.ce
     doms = domains_by_scrutinee([func.node])
@@ -44,7 +44,7 @@ def decision_table(ctx, func, with_previous):
     if set(doms) - known:
         raise AnalysisError("%s compares scrutinees outside the modelled set: %s" % (func.fq, sorted(set(doms) - known)))
     names = sorted(doms.get("tagname", {FRESH}))
-    next_names = sorted(doms.get("next['name']", {FRESH}))
+    next_names = sorted(set(doms.get("next['name']", {FRESH})) | set(extra_next))
     prev_names = sorted(doms.get("previous['name']", {FRESH}))
     interp = MiniInterp(ce, func.module)
     table = {}
@@ -87,8 +87,10 @@ def tables(ctx):
     def build():
         fs = ctx.repo.func("filters/optionaltags.py", "Filter.is_optional_start")
         fe = ctx.repo.func("filters/optionaltags.py", "Filter.is_optional_end")
-        ns, ts = decision_table(ctx, fs, True)
-        ne, te = decision_table(ctx, fe, False)
+        from .c03 import model
+        extra = model(ctx).table_names       # the parser distinguishes these names: refine the abstraction by them
+        ns, ts = decision_table(ctx, fs, True, extra)
+        ne, te = decision_table(ctx, fe, False, extra)
         return fs, fe, ns, ts, ne, te
     return ctx.shared("c13.tables", build)
 
